@@ -501,11 +501,51 @@ def lookalike(d: D, src: str) -> str:
     return src
 
 
+def tab_spellings(c0: int, c1: int, limit: int = 24) -> list[str]:
+    """All spellings of a blank run covering columns [c0, c1) with spaces and tabs, every tab
+    ending exactly on a tab stop (multiple of 4)."""
+    out: list[str] = []
+
+    def rec(c: int, acc: str) -> None:
+        if len(out) >= limit:
+            return
+        if c == c1:
+            out.append(acc)
+            return
+        rec(c + 1, acc + " ")
+        nxt = (c // 4 + 1) * 4
+        if nxt <= c1:
+            rec(nxt, acc + "\t")
+
+    rec(c0, "")
+    return out
+
+
+def tab_respell_line(d: D, line: str) -> str:
+    """Respell one run of spaces in the structural prefix of a line with a column-equivalent
+    mix of tabs and spaces (or, rarely, a non-equivalent tab)."""
+    import re as _re
+
+    runs = [m for m in _re.finditer(r" +", line) if m.start() < 14]
+    if not runs:
+        return "\t" + line if d.chance(0.3) else line
+    m = d.pick(runs)
+    col = 0
+    for ch in line[: m.start()]:
+        col = (col // 4 + 1) * 4 if ch == "\t" else col + 1
+    opts = [o for o in tab_spellings(col, col + (m.end() - m.start())) if "\t" in o]
+    if opts and d.chance(0.85):
+        rep = d.pick(opts)
+    else:
+        rep = "\t" * d.i(1, 2)
+    return line[: m.start()] + rep + line[m.end() :]
+
+
 def perturb(d: D, src: str, tabs: bool = True) -> str:
     k = d.weighted(
         [
             (40, "none"), (12, "truncate"), (6, "dropline"), (4, "dupline"), (4, "swap"), (8, "hot"), (6, "nofinal"),
-            (4, "tabify" if tabs else "none"), (3, "unprefix"), (3, "crlf"), (2, "nul"), (3, "hotline"), (8, "lookalike"),
+            (7, "tabify" if tabs else "none"), (3, "unprefix"), (3, "crlf"), (2, "nul"), (3, "hotline"), (8, "lookalike"),
         ]
     )
     if k == "none" or not src:
@@ -530,6 +570,11 @@ def perturb(d: D, src: str, tabs: bool = True) -> str:
         return src[:i] + d.pick(HOT) + src[i:]
     if k == "nofinal":
         return src.rstrip("\n") if d.chance(0.7) else src + "\n"
+    if k == "tabify" and d.chance(0.6):
+        for _ in range(d.i(1, 3)):
+            i = d.i(0, len(lines) - 1)
+            lines[i] = tab_respell_line(d, lines[i])
+        return "\n".join(lines)
     if k == "tabify":
         i = d.i(0, len(lines) - 1)
         ln = lines[i]
